@@ -56,7 +56,7 @@ def gen_graph(rng, n, shape=None):
     return [sorted(set(p)) for p in preds]
 
 
-def gen(rng, max_n=8, p_sel=0.3, p_fail=0.06, mixed=True):
+def gen(rng, max_n=8, p_sel=0.3, p_fail=0.06, mixed=True, indexed_flags=True):
     n = rng.randint(1, max_n)
     preds = gen_graph(rng, n)
     kinds = ["t", "t", "t", "a", "a", "m"] if mixed else rng.choice([["t", "t", "m"], ["a", "a", "m"]])
@@ -79,6 +79,15 @@ def gen(rng, max_n=8, p_sel=0.3, p_fail=0.06, mixed=True):
               script=dict(seed=rng.randrange(1 << 30)))
     if rng.random() < p_sel:
         sc["sel"] = gen_sel(rng, sc)
+    if indexed_flags and (sc["sel"] is None or sc["sel"].get("R") is None) and rng.random() < 0.3:
+        # activation flags that are ELEMENTS of a node's result: a producer returning (payload, 0, "on") gates nodes through
+        # [1] (falsy) and [2] / [0] (truthy) — several nodes gated by different elements of ONE producer included
+        for i, s_ in enumerate(specs):
+            cands = [j for j in range(i) if specs[j]["flag"] is None and not specs[j]["fail"]]
+            if cands and (s_["flag"] is None or s_["flag"][0] == "n") and rng.random() < 0.5:
+                j = rng.choice([c_ for c_ in cands if specs[c_]["ret"] == "p"] or cands)
+                specs[j]["ret"] = "p"
+                s_["flag"] = ["n", j, rng.choice([0, 1, 1, 2])]
     # the whole graph described in an INNER DAG that the executed DAG calls: the spliced nodes ("inner.n3") must keep
     # every attribute they were declared with (priority, is_sequential, resource, tag, activation flag)
     sc["nested"] = rng.random() < 0.2
@@ -91,6 +100,14 @@ def gen(rng, max_n=8, p_sel=0.3, p_fail=0.06, mixed=True):
         else:
             for s_ in specs:
                 s_.pop("setup", None)
+    if sc.get("op") != "setup" and rng.random() < 0.25:
+        # debug nodes (anything depending on a debug node is a debug node: the build rule), the RUN_DEBUG_NODES flag at
+        # call time, and — independently — the flag while the DAG is DESCRIBED (what a description leaves in the instance
+        # must not depend on it)
+        mark_debug(rng, sc)
+    sc["tiny_loop_executor"] = sc["is_async"] and rng.random() < 0.3
+    # the instance may have a past: one plain call before the executor is created / the call that is observed
+    sc["warm"] = sc.get("op") != "setup" and rng.random() < 0.2
     sc["profile"] = rng.random() < 0.2      # TAWAZI_PROFILE_ALL_NODES: a documented option that must not change anything observed here
     if (not sc["nested"]) and all(not (s_["flag"] and s_["flag"][0] == "c") for s_ in specs) and rng.random() < 0.12:
         # the DAG is NOT traced: its node table is handed to the constructor (hand-built ExecNodes), listed in a random
@@ -175,6 +192,20 @@ def directed(rng):
             specs.append(node(preds=[1], prio=1, res="t"))
         out.append(dict(n=len(specs), specs=specs, maxc=rng.choice([2, 3]), is_async=rng.random() < 0.3, sel=None, nested=False,
                         script=dict(seed=rng.randrange(1 << 30))))
+    for _ in range(5):
+        # a debug node that FAILS (flag on) and a debug node depending on it — through an argument or through its activation
+        # flag: the failure ends the run like any other, the dependant never starts
+        kind = rng.choice(["t", "a", "m"])
+        specs = [node(prio=rng.choice([0, 2]), res=rng.choice(["t", "a"])),
+                 dict(node(preds=[0], prio=rng.choice([0, 3]), res=kind), fail=True, dbg=True)]
+        if rng.random() < 0.5:
+            specs.append(dict(node(preds=[0, 1], prio=1, res=rng.choice(["t", "m"])), dbg=True))
+        else:
+            specs.append(dict(node(preds=[0], prio=1, res=rng.choice(["t", "m"])), dbg=True, flag=["n", 1]))
+        if rng.random() < 0.5:
+            specs.append(node(preds=[0], prio=rng.choice([0, 5]), res="t"))
+        out.append(dict(n=len(specs), specs=specs, maxc=rng.choice([1, 2, 3]), is_async=rng.random() < 0.3, sel=None, nested=rng.random() < 0.3,
+                        run_debug=True, debug_at_build=rng.random() < 0.5, script=dict(seed=rng.randrange(1 << 30))))
     for _ in range(4):
         # a tag carried by a non-sequential node and (later in the description) a sequential one, reconfigured through the tag
         # by an entry that states the priority only: both keep their own sequential flag
@@ -188,6 +219,16 @@ def directed(rng):
                                warmup=rng.random() < 0.3))
         out.append(sc_)
     return out
+
+
+def mark_debug(rng, sc, p=0.25):
+    specs = sc["specs"]
+    for i, s_ in enumerate(specs):
+        s_["dbg"] = any(specs[p_].get("dbg") for p_ in all_preds(s_)) or rng.random() < p
+    if not any(s_.get("dbg") for s_ in specs):
+        specs[-1]["dbg"] = True
+    sc["run_debug"] = rng.random() < 0.65
+    sc["debug_at_build"] = rng.random() < 0.5
 
 
 def effective(sc):
@@ -301,7 +342,14 @@ def cp_spec(sc):
 # building and running the real thing
 # ---------------------------------------------------------------------------------------------
 def value(i, s, args):
+    if s["ret"] == "p":
+        return (("n%d" % i,) + tuple(args), 0, "on")
     return 0 if s["ret"] == "z" else ("n%d" % i,) + tuple(args)
+
+
+def flag_value(flag, get):
+    v = get(flag[1])
+    return v[flag[2]] if len(flag) > 2 and v is not None else v
 
 
 def received(s, get):
@@ -327,7 +375,8 @@ def make_node(i, s):
         return value(i, s, args)
 
     body.__name__ = body.__qualname__ = "n%d" % i
-    node = xn(body, priority=s["prio"], is_sequential=s["seq"], resource=RES[s["res"]], tag=s.get("tag"), setup=bool(s.get("setup")))
+    node = xn(body, priority=s["prio"], is_sequential=s["seq"], resource=RES[s["res"]], tag=s.get("tag"), setup=bool(s.get("setup")),
+              debug=bool(s.get("dbg")))
     # from here on the node id ("n<i>") and the wrapped function's name differ, as they do for a function
     # used at several call sites ("f<<1>>") or inside a nested DAG ("inner.f"): messages must name the NODE
     body.__qualname__ = "impl_of_node_%d" % i
@@ -355,8 +404,10 @@ def build_handbuilt(sc):
                 raise Boom(i)
             return value(i, s, args)
         body.__name__ = body.__qualname__ = "impl_of_node_%d" % i
-        active = UsageExecNode("n%d" % s["flag"][1]) if s["flag"] else None
+        active = UsageExecNode("n%d" % s["flag"][1], key=list(s["flag"][2:])) if s["flag"] else None
         kw = dict(tag=s["tag"]) if s.get("tag") else {}
+        if s.get("dbg"):
+            kw["debug"] = True
         table["n%d" % i] = ExecNode(id_="n%d" % i, exec_function=body, args=[UsageExecNode("n%d" % p) for p in s["preds"]],
                                     priority=s["prio"], is_sequential=s["seq"], resource=RES[s["res"]], active=active, **kw)
     cls = AsyncDAG if sc["is_async"] else DAG
@@ -376,7 +427,7 @@ def build(sc):
         for i, s in enumerate(sc["specs"]):
             kw = {}
             if s["flag"] is not None:
-                kw["twz_active"] = s["flag"][1] if s["flag"][0] == "c" else vals[s["flag"][1]]
+                kw["twz_active"] = s["flag"][1] if s["flag"][0] == "c" else flag_value(s["flag"], lambda j: vals[j])
             use = s.get("use") or {}
             pos = []
             for j in s["preds"]:
@@ -413,7 +464,7 @@ def oracle(sc, selected):
         dep_failed = any(failed[p] for p in all_preds(s) if p in selected)
         act = True
         if s["flag"] is not None:
-            act = bool(s["flag"][1]) if s["flag"][0] == "c" else bool(get(s["flag"][1]))
+            act = bool(s["flag"][1]) if s["flag"][0] == "c" else bool(flag_value(s["flag"], get))
         active.append(act)
         if dep_failed:
             vals.append(None); failed.append(True)      # never runs: the run raises before
@@ -427,6 +478,11 @@ def oracle(sc, selected):
     return vals, active, failed
 
 
+def whole_call_selection(sc):
+    """A plain call runs every node; the debug nodes only when RUN_DEBUG_NODES is on at the time of the call."""
+    return {i for i, s_ in enumerate(sc["specs"]) if sc.get("run_debug") or not s_.get("dbg")}
+
+
 def ids(l):
     return None if l is None else [PREFIX[0] + "n%d" % i for i in l]
 
@@ -434,20 +490,37 @@ def ids(l):
 def run_scenario(sc, timeout=40):
     """Build and run one scenario on the real code.  Returns a dict with everything observed."""
     from tawazi import cfg as _cfg
-    old_profile = _cfg.TAWAZI_PROFILE_ALL_NODES
+    old_profile, old_debug = _cfg.TAWAZI_PROFILE_ALL_NODES, _cfg.RUN_DEBUG_NODES
     _cfg.TAWAZI_PROFILE_ALL_NODES = bool(sc.get("profile"))
+    _cfg.RUN_DEBUG_NODES = bool(sc.get("debug_at_build"))
     try:
         return _run_scenario(sc, timeout)
     finally:
         _cfg.TAWAZI_PROFILE_ALL_NODES = old_profile
+        _cfg.RUN_DEBUG_NODES = old_debug
+
+
+def arun(sc, mk):
+    """Await mk() in a fresh event loop — the application's loop, whose DEFAULT executor may be tiny (one worker): the DAG's
+    nodes run in the DAG's own pool, whatever the application does with its loop."""
+    if not sc.get("tiny_loop_executor"):
+        return asyncio.run(mk())
+    import concurrent.futures as _cf
+
+    async def main():
+        asyncio.get_running_loop().set_default_executor(_cf.ThreadPoolExecutor(max_workers=1))
+        return await mk()
+    return asyncio.run(main())
 
 
 def _run_scenario(sc, timeout):
+    from tawazi import cfg as _cfg
     d = build(sc)
+    _cfg.RUN_DEBUG_NODES = bool(sc.get("run_debug"))
     if sc.get("reconf"):
         if sc["reconf"].get("warmup"):
             # one call under the build-time configuration first (outcome irrelevant; under control so that it ends)
-            control.run_controlled(lambda: asyncio.run(d()) if sc["is_async"] else d(),
+            control.run_controlled(lambda: arun(sc, d) if sc["is_async"] else d(),
                                    control.Script(rng=random.Random(sc["script"].get("seed", 0) + 1)), timeout=timeout)
         early_ex = None
         if sc["reconf"].get("exec_before"):
@@ -456,14 +529,17 @@ def _run_scenario(sc, timeout):
                 early_ex = d.executor(root_nodes=ids(sel0.get("R")), exclude_nodes=ids(sel0.get("X")), target_nodes=ids(sel0.get("T")))
             except BaseException as e:  # noqa: BLE001
                 return dict(skipped="executor-creation-raised:" + type(e).__name__)
-        apply_reconf(d, sc["reconf"])
+        try:
+            apply_reconf(d, sc["reconf"])
+        except Exception as e:  # noqa: BLE001  every entry names a node / tag of the description: nothing to refuse
+            return dict(skipped="reconfiguration-raised", config_refused="%s: %s" % (type(e).__name__, str(e)[:160]))
         if early_ex is not None:
             ex = early_ex
             graph_nodes = {int(norm_id(x)[1:]) for x in ex.graph.nodes if norm_id(x).startswith("n") and norm_id(x)[1:].isdigit()}
             real_cp = {norm_id(k): ex.graph.compound_priority[k] for k in list(ex.graph.nodes)}
             script = control.Script(decisions=sc["script"]["decisions"]) if "decisions" in sc["script"] else \
                 control.Script(rng=random.Random(sc["script"]["seed"]))
-            R, outcome = control.run_controlled(lambda: asyncio.run(ex()) if sc["is_async"] else ex(), script, timeout=timeout)
+            R, outcome = control.run_controlled(lambda: arun(sc, ex) if sc["is_async"] else ex(), script, timeout=timeout)
             return dict(run=R, outcome=outcome, selected=graph_nodes, real_cp=real_cp, script_trace=script.trace)
     if sc.get("op") == "setup":
         g_ = d._pre_setup(None, None, None)       # the graph an explicit setup() runs
@@ -471,15 +547,18 @@ def _run_scenario(sc, timeout):
         real_cp = {norm_id(k): g_.compound_priority[k] for k in list(g_.nodes)}
         script = control.Script(decisions=sc["script"]["decisions"]) if "decisions" in sc["script"] else \
             control.Script(rng=random.Random(sc["script"]["seed"]))
-        R, outcome = control.run_controlled(lambda: asyncio.run(d.setup()) if sc["is_async"] else d.setup(), script, timeout=timeout)
+        R, outcome = control.run_controlled(lambda: arun(sc, d.setup) if sc["is_async"] else d.setup(), script, timeout=timeout)
         return dict(run=R, outcome=outcome, selected=graph_nodes, real_cp=real_cp, script_trace=script.trace)
+    if sc.get("warm") and not sc.get("reconf"):
+        control.run_controlled(lambda: arun(sc, d) if sc["is_async"] else d(),
+                               control.Script(rng=random.Random(sc["script"].get("seed", 0) + 1)), timeout=timeout)
     sel = sc.get("sel")
     if sel is None:
         graph_nodes = None
         real_cp = {norm_id(k): v for k, v in d.graph_ids.compound_priority.items()}
 
         def call():
-            return asyncio.run(d()) if sc["is_async"] else d()
+            return arun(sc, d) if sc["is_async"] else d()
     else:
         try:
             ex = d.executor(root_nodes=ids(sel.get("R")), exclude_nodes=ids(sel.get("X")), target_nodes=ids(sel.get("T")))
@@ -489,13 +568,13 @@ def _run_scenario(sc, timeout):
         real_cp = {norm_id(k): ex.graph.compound_priority[k] for k in list(ex.graph.nodes)}
 
         def call():
-            return asyncio.run(ex()) if sc["is_async"] else ex()
+            return arun(sc, ex) if sc["is_async"] else ex()
     if "decisions" in sc["script"]:
         script = control.Script(decisions=sc["script"]["decisions"])
     else:
         script = control.Script(rng=random.Random(sc["script"]["seed"]))
     R, outcome = control.run_controlled(call, script, timeout=timeout)
-    selected = set(range(sc["n"])) if graph_nodes is None else graph_nodes
+    selected = whole_call_selection(sc) if graph_nodes is None else graph_nodes
     return dict(run=R, outcome=outcome, selected=selected, real_cp=real_cp, script_trace=script.trace)
 
 
@@ -594,13 +673,25 @@ def monitors(sc, obs):
             return False
         return all((p in observed) or not active[p] for p in preds_in(m))
 
+    # the documented selection of an executor (no debug nodes around: root + descendants, minus excluded + descendants,
+    # restricted to targets + ancestors); what the executor's graph really holds is `selected`
+    documented = None
+    if sc.get("sel") is not None and sc.get("op") != "setup" and not any(s_.get("dbg") for s_ in specs):
+        documented = closure(sc, sc["sel"])
+        if documented != set(selected):
+            bad("C12", "executor-graph-differs-from-the-documented-selection", got=sorted(selected), want=sorted(documented))
+
     def on_start(n, pooled):
         nonlocal failure_seen
         facts["starts"] += 1
+        if documented is not None and n in selected and n not in documented:
+            bad("C03", "node-outside-the-documented-selection-ran", node=n, selection=sc["sel"], documented=sorted(documented))
         if n in started:
             bad("C03", "started-twice", node=n)
         if n not in selected:
             bad("C03", "unselected-node-ran", node=n)
+            if specs[n].get("dbg") and not sc.get("run_debug"):
+                bad("C13", "debug-node-ran-with-the-flag-off", node=n)
             return
         if not active[n]:
             bad("C10", "deactivated-node-ran", node=n, flag=specs[n]["flag"])
@@ -610,6 +701,7 @@ def monitors(sc, obs):
                 bad("C02", "dependency-not-finished", node=n, dep=p)
             if failed[p] or (specs[p]["fail"] and active[p]):
                 bad("C14", "dependent-of-failed-started", node=n, dep=p)
+                bad("C02", "started-although-a-dependency-never-returned", node=n, dep=p)
         if failure_seen:
             bad("C14", "start-after-observed-failure", node=n)
         if pooled and len(inflight) + len(unknown_inflight) >= maxc:
@@ -758,8 +850,13 @@ def monitors(sc, obs):
                     bad("C03", "wrong-execution-count", node=i, got=counts.get(i, 0), want=want)
                     if want == 1:
                         bad("C09", "returned-with-node-not-run", node=i)
+                    if specs[i].get("dbg"):
+                        bad("C13", "debug-node-execution-count", node=i, got=counts.get(i, 0), want=want, flag=bool(sc.get("run_debug")))
             if sc.get("op") != "setup" and list(outcome[1]) != vals:
                 bad("C01", "wrong-return-value", got=outcome[1], want=vals)
+                if any(s_.get("dbg") for s_ in specs) and \
+                        any(g_ != w_ for g_, w_, s_ in zip(outcome[1], vals, specs) if not s_.get("dbg")):
+                    bad("C13", "production-value-differs-in-a-dag-with-debug-nodes", got=outcome[1], want=vals)
     else:
         exc = outcome[1]
         f = failing_node_of(exc)
